@@ -224,6 +224,60 @@ pub fn run(ctx: &Ctx) -> EvidenceMeta {
     }
     ctx.enumerate("header-sweep", &items, test);
     ctx.bytes_check("raw-bytes", raw_check);
+    // every 3-byte beginning of a header (all 2^24), as a 3-byte prefix and extended to 19 bytes:
+    // with zero top bits each of them is the prefix of some well-formed message (any 14-bit type, any
+    // high byte of the length), so the verdict must be Truncated { expected: 20, actual }
+    let step: u64 = if ctx.quick() { 1 } else { 1 };
+    ctx.sweep("short-prefix-exhaustive", (1u64 << 24) / step, |i, st| {
+        st.eval();
+        let v = (i * step) as u32;
+        let mut p = [0u8; 19];
+        p[0] = (v >> 16) as u8;
+        p[1] = (v >> 8) as u8;
+        p[2] = v as u8;
+        p[4..8].copy_from_slice(&0x2112_A442u32.to_be_bytes());
+        for n in [3usize, 19, 4 + (v as usize % 15)] {
+            let m = guard(|| Message::from_bytes(&p[..n]).map(|_| ())).map_err(|pn| (Fail::new("c17-panic", pn), json!({"bytes": hex(&p[..n])})))?;
+            let h = guard(|| MessageHeader::from_bytes(&p[..n]).map(|_| ())).map_err(|pn| (Fail::new("c17-panic", pn), json!({"bytes": hex(&p[..n])})))?;
+            for (what, r) in [("Message::from_bytes", &m), ("MessageHeader::from_bytes", &h)] {
+                let ok = match r {
+                    Err(StunParseError::Truncated { expected: 20, actual }) => *actual == n,
+                    // with a top bit set "not STUN" is as true as "truncated"
+                    Err(StunParseError::NotStun) => p[0] & 0xC0 != 0,
+                    _ => false,
+                };
+                if !ok {
+                    return Err((
+                        Fail::new(
+                            "c17-counts",
+                            format!(
+                                "{} on the {}-byte prefix {} gives {}; it is the beginning of a well-formed message and must be reported as Truncated {{ expected: 20, actual: {} }}",
+                                what,
+                                n,
+                                hex(&p[..n]),
+                                match r {
+                                    Ok(()) => "Ok".to_string(),
+                                    Err(e) => err_name(e),
+                                },
+                                n
+                            ),
+                        ),
+                        json!({"bytes": hex(&p[..n])}),
+                    ));
+                }
+            }
+        }
+        if v % 4099 == 0 {
+            st.nontrivial(digest(&("short", v)));
+        }
+        Ok(())
+    });
+    {
+        let mut st = ctx.new_stats();
+        st.exhaustive_parts.push("all 2^24 three-byte beginnings of a header, as prefixes of 3, 4..18 and 19 bytes".into());
+        st.class_n("short prefixes (exhaustive over the first three bytes)", 3 << 24);
+        ctx.merge_stats(st);
+    }
     EvidenceMeta {
         rule: "well-formed messages (reference serialisation of generated builder programs, all sealing combinations, 1% with \
                65 400..65 532-byte bodies) x EVERY cut point 0..len: the prefix must be refused as Truncated with actual = cut and \
@@ -254,6 +308,16 @@ fn raw_check(data: &[u8], st: &mut Stats) -> TestResult {
 }
 
 pub fn replay(check: &str, case: &Value, st: &mut Stats) -> Result<TestResult, String> {
+    if check == "short-prefix-exhaustive" {
+        let b = crate::gen::raw_case_bytes(case)?;
+        let r = Message::from_bytes(&b).map(|_| ());
+        let ok = match &r {
+            Err(StunParseError::Truncated { expected: 20, actual }) => *actual == b.len(),
+            Err(StunParseError::NotStun) => b.first().map_or(false, |x| x & 0xC0 != 0),
+            _ => false,
+        };
+        return Ok(if ok { Ok(()) } else { Err(Fail::new("c17-counts", format!("short prefix {} gives {:?}", hex(&b), r.err().map(|e| err_name(&e))))) });
+    }
     if check == "raw-bytes" {
         return Ok(raw_check(&crate::gen::raw_case_bytes(case)?, st));
     }
